@@ -50,6 +50,11 @@ type fnSpec struct {
 	group     string   // "" -> Funcs.lean, otherwise Funcs<group>.lean (imports the earlier files)
 	table     bool     // closure table (see above)
 	fuel      []string // fuel (a Lean term) of the k-th `for cond {}` / `for {}` loop
+	// views: for every abstract parameter the field paths / accessors / constant indices the function may read
+	// (space separated: "White cfg.c.Mask Size [Terminal_Flats]").  They - not the reads found in the body - make
+	// up the Lean parameter list, so that an edit that drops or reorders a read leaves the signature (and with it
+	// the driver and the other properties' builds) alone; a read outside the list fails loudly.
+	views map[string]string
 }
 
 // groups in file order; a function may only call functions of its own or an earlier group
@@ -78,14 +83,14 @@ var whitelist = []fnSpec{
 	{dir: "tak", file: "pieces.go", recv: "Piece", name: "Kind", lean: "pieceKind", group: "Tak"},
 	{dir: "tak", file: "pieces.go", recv: "Piece", name: "IsRoad", lean: "pieceIsRoad", group: "Tak"},
 	{dir: "tak", file: "pieces.go", recv: "Color", name: "Flip", lean: "colorFlip", group: "Tak"},
-	{dir: "tak", file: "game.go", recv: "Position", name: "ToMove", lean: "positionToMove", group: "Tak"},
-	{dir: "tak", file: "hash.go", recv: "Position", name: "Hash", lean: "positionHash", group: "Tak"},
+	{dir: "tak", file: "game.go", recv: "Position", name: "ToMove", lean: "positionToMove", group: "Tak", views: map[string]string{"p": "move"}},
+	{dir: "tak", file: "hash.go", recv: "Position", name: "Hash", lean: "positionHash", group: "Tak", views: map[string]string{"p": "Black Caps Standing White hash move"}},
 
 	// group Over: bitboard.Flood and the game-end helpers of tak/game.go
 	{dir: "bitboard", file: "bits.go", name: "Flood", lean: "flood", group: "Over", fuel: []string{"66"}},
-	{dir: "tak", file: "game.go", recv: "Position", name: "countFlats", lean: "positionCountFlats", group: "Over"},
-	{dir: "tak", file: "game.go", recv: "Position", name: "flatsWinner", lean: "positionFlatsWinner", group: "Over"},
-	{dir: "tak", file: "game.go", recv: "Position", name: "GameOver", lean: "positionGameOver", group: "Over"},
+	{dir: "tak", file: "game.go", recv: "Position", name: "countFlats", lean: "positionCountFlats", group: "Over", views: map[string]string{"p": "Black Caps Standing White"}},
+	{dir: "tak", file: "game.go", recv: "Position", name: "flatsWinner", lean: "positionFlatsWinner", group: "Over", views: map[string]string{"p": "Black Caps Standing White cfg.BlackWinsTies"}},
+	{dir: "tak", file: "game.go", recv: "Position", name: "GameOver", lean: "positionGameOver", group: "Over", views: map[string]string{"p": "Black Caps Standing White blackCaps blackStones cfg.BlackWinsTies cfg.c.Mask hasRoad whiteCaps whiteStones"}},
 
 	// group Move: tak/slide.go Len, tak/move.go small methods
 	{dir: "tak", file: "slide.go", recv: "Slides", name: "Len", lean: "slidesLen", group: "Move", fuel: []string{"8"}},
@@ -101,15 +106,15 @@ var whitelist = []fnSpec{
 	{dir: "ai", file: "minimax.go", name: "teSuffices", lean: "teSuffices", group: "AI"},
 
 	// group FPA: cmd/internal/playtak/fpa.go
-	{dir: "cmd/internal/playtak", file: "fpa.go", name: "isCentered", lean: "isCentered", group: "FPA"},
-	{dir: "cmd/internal/playtak", file: "fpa.go", name: "isCenterAdjacent", lean: "isCenterAdjacent", group: "FPA"},
+	{dir: "cmd/internal/playtak", file: "fpa.go", name: "isCentered", lean: "isCentered", group: "FPA", views: map[string]string{"p": "Size"}},
+	{dir: "cmd/internal/playtak", file: "fpa.go", name: "isCenterAdjacent", lean: "isCenterAdjacent", group: "FPA", views: map[string]string{"p": "Size"}},
 	{dir: "cmd/internal/playtak", file: "fpa.go", name: "distance", lean: "distance", group: "FPA"},
 	{dir: "cmd/internal/playtak", file: "fpa.go", name: "dir", lean: "dir", group: "FPA"},
 
 	// group Eval: ai/evaluate.go terminal scores, bitboard.Dimensions (used by scoreGroups)
 	{dir: "bitboard", file: "bits.go", name: "Dimensions", lean: "dimensions", group: "Eval", fuel: []string{"70", "70", "70", "70"}},
-	{dir: "ai", file: "evaluate.go", name: "evaluateTerminal", lean: "evaluateTerminal", group: "Eval"},
-	{dir: "ai", file: "evaluate.go", name: "EvaluateWinner", lean: "evaluateWinner", group: "Eval"},
+	{dir: "ai", file: "evaluate.go", name: "evaluateTerminal", lean: "evaluateTerminal", group: "Eval", views: map[string]string{"p": "BlackStones MoveNumber Size WhiteStones WinDetails move", "w": "[Terminal_Flats] [Terminal_OpponentReserves] [Terminal_Plies] [Terminal_Reserves]"}},
+	{dir: "ai", file: "evaluate.go", name: "EvaluateWinner", lean: "evaluateWinner", group: "Eval", views: map[string]string{"p": "Black Caps Standing White blackCaps blackStones cfg.BlackWinsTies cfg.c.Mask hasRoad whiteCaps whiteStones move"}},
 }
 
 // accessors: methods of abstract (non-translatable) parameters that may be read like a field.
@@ -460,10 +465,78 @@ func (t *tr) absOf(id *ast.Ident) *absParam {
 	return nil
 }
 
+func viewName(param string, path []string) string {
+	return param + "_" + strings.NewReplacer("[", "", "]", "").Replace(strings.Join(path, "_"))
+}
+
 func (t *tr) view(a *absParam, path []string, ty ltype) string {
-	name := a.name + "_" + strings.NewReplacer("[", "", "]", "").Replace(strings.Join(path, "_"))
-	a.views[name] = viewInfo{path: path, ty: ty}
+	name := viewName(a.name, path)
+	old, ok := a.views[name]
+	if !ok {
+		t.err2("%s reads %s.%s, which is not among the views declared for it in the whitelist", t.spec.name, a.name, strings.Join(path, "."))
+		return "?"
+	}
+	if old.ty.lean() != ty.lean() {
+		t.err2("%s: view %s has type %s, declared path resolves to %s", t.spec.name, name, ty.lean(), old.ty.lean())
+	}
 	return name
+}
+
+func (t *tr) err2(format string, a ...interface{}) {
+	if t.err == nil {
+		t.err = fmt.Errorf("%s.%s (%s): outside the translatable subset: %s", t.spec.dir, t.spec.name, t.spec.file, fmt.Sprintf(format, a...))
+	}
+}
+
+// declareViews resolves the declared view paths of an abstract parameter through go/types.
+func (t *tr) declareViews(a *absParam, ty types.Type) {
+	decl, ok := t.spec.views[a.name]
+	if !ok {
+		t.err2("abstract parameter %s has no declared views in the whitelist", a.name)
+		return
+	}
+	for _, ps := range strings.Fields(decl) {
+		path := strings.Split(ps, ".")
+		cur := ty
+		for _, comp := range path {
+			if p, ok := cur.(*types.Pointer); ok {
+				cur = p.Elem()
+			}
+			if strings.HasPrefix(comp, "[") {
+				arr, ok := cur.Underlying().(*types.Array)
+				if !ok {
+					t.err2("view %s.%s: not an array", a.name, ps)
+					return
+				}
+				cur = arr.Elem()
+				continue
+			}
+			var pkg *types.Package
+			if n, ok := cur.(*types.Named); ok {
+				pkg = n.Obj().Pkg()
+			}
+			obj, _, _ := types.LookupFieldOrMethod(cur, true, pkg, comp)
+			switch o := obj.(type) {
+			case *types.Var:
+				cur = o.Type()
+			case *types.Func:
+				if !accessors[funcKey(o)] {
+					t.err2("view %s.%s: method %s is not a listed accessor", a.name, ps, funcKey(o))
+					return
+				}
+				cur = o.Type().(*types.Signature).Results()
+			default:
+				t.err2("view %s.%s: no field or method %s", a.name, ps, comp)
+				return
+			}
+		}
+		lt := t.ltypeOf(cur)
+		if lt.c == tBad {
+			t.err2("view %s.%s: type %s is not translatable", a.name, ps, cur)
+			return
+		}
+		a.views[viewName(a.name, path)] = viewInfo{path: path, ty: lt}
+	}
 }
 
 func (t *tr) expr(e ast.Expr) string {
@@ -1513,6 +1586,7 @@ func (t *tr) signature(recv *ast.FieldList, ft *ast.FuncType) (ps []sigParam, rt
 		if lt.c == tBad {
 			if abstractable(obj.Type()) {
 				t.abs[obj] = &absParam{name: n.Name, views: map[string]viewInfo{}}
+				t.declareViews(t.abs[obj], obj.Type())
 				ps = append(ps, sigParam{obj: obj, name: n.Name, abstract: true})
 				return
 			}
